@@ -1,6 +1,7 @@
 package main
 
 import (
+	"encoding/json"
 	"fmt"
 	"strings"
 	"time"
@@ -265,6 +266,76 @@ func c14TCP(name string, closers int, sends []c14send, ts []*expTmpl) *vsched.Sc
 	return &vsched.Scenario{Name: name, Main: main, TrackRaces: true, Start: t0}
 }
 
+// c14Blocked: the collector is alive but not reading; the application's second send blocks in Write;
+// another goroutine calls CloseConnToCollector, which must return and must unblock the sender.
+func c14Blocked(name string, ts []*expTmpl) *vsched.Scenario {
+	main := func() {
+		l, err := vnet.Listen("tcp", "127.0.0.1:4739")
+		if err != nil {
+			panic(err)
+		}
+		ep, err := exporter.InitExportingProcess(exporter.ExporterInput{CollectorAddress: "127.0.0.1:4739", CollectorProtocol: "tcp", ObservationDomainID: 7, CheckConnInterval: time.Hour})
+		if err != nil {
+			panic(err)
+		}
+		svc, _ := l.Accept()
+		conn := svc.(*vnet.FakeConn).Peer()
+		conn.WriteCap = 1
+		vsched.Quiesce()
+		var results []string
+		app := vsched.Go("app", func() {
+			for i := 0; i < 3; i++ {
+				var set entities.Set
+				if i == 0 {
+					set = tmplSet(ts[0])
+				} else {
+					set, _ = dataSet(ts[0], 1, 5, 0)
+				}
+				_, err := ep.SendSet(set)
+				results = append(results, fmt.Sprint(err == nil))
+			}
+		})
+		closer := vsched.Go("closer", func() { ep.CloseConnToCollector() })
+		vsched.Join(app, closer)
+		c14leak("after CloseConnToCollector with a sender blocked in Write")
+		vsched.Logf("app=%v", results)
+	}
+	return &vsched.Scenario{Name: name, Main: main, TrackRaces: true, Start: t0}
+}
+
+// c14JSON: JSON mode over UDP - the background refresh must not put anything but JSON documents on
+// the connection.
+func c14JSON(name string, ts []*expTmpl) *vsched.Scenario {
+	main := func() {
+		ep, err := exporter.InitExportingProcess(exporter.ExporterInput{CollectorAddress: "127.0.0.1:4739", CollectorProtocol: "udp", ObservationDomainID: 7, TempRefTimeout: 1, SendJSONRecord: true})
+		if err != nil {
+			panic(err)
+		}
+		conn := c14clientConn()
+		vsched.Quiesce()
+		app := vsched.Go("app", func() {
+			ep.SendSet(tmplSet(ts[0]))
+			set, _ := dataSet(ts[0], 2, 5, 0)
+			if _, err := ep.SendSet(set); err != nil {
+				vsched.Fail("json-send", "SendSet(data) in JSON mode: %v", err)
+			}
+		})
+		env := vsched.Go("env", func() { vsched.Advance(time.Second) })
+		vsched.Join(app, env)
+		vsched.Quiesce()
+		for i, w := range conn.Writes {
+			var doc map[string]interface{}
+			if err := json.Unmarshal(w.Data, &doc); err != nil {
+				vsched.Fail("non-json-write", "write #%d by thread %d on a JSON-mode connection is not a JSON document: %v (%x)", i, w.Thread, err, short(w.Data))
+			}
+		}
+		ep.CloseConnToCollector()
+		c14leak("after CloseConnToCollector")
+		vsched.Logf("writes=%d", len(conn.Writes))
+	}
+	return &vsched.Scenario{Name: name, Main: main, TrackRaces: true, Start: t0}
+}
+
 func c14E2(tier string) []*e2Scenario {
 	ts := c08Tmpls()
 	sends := []c14send{{ts[0], true, 0}, {ts[0], false, 2}, {ts[1], true, 0}, {ts[1], false, 1}}
@@ -279,6 +350,8 @@ func c14E2(tier string) []*e2Scenario {
 		{Name: "udp-2-concurrent-close", Sc: c14UDP("udp-2-concurrent-close", 1, 2, short2, ts), Bound: b},
 		{Name: "tcp-1-peer-close", Sc: c14TCP("tcp-1-peer-close", 0, sends[:3], ts), Bound: b},
 		{Name: "tcp-2-checker-close-vs-close", Sc: c14TCP("tcp-2-checker-close-vs-close", 2, short2[:1], ts), Bound: b},
+		{Name: "tcp-3-close-vs-blocked-write", Sc: c14Blocked("tcp-3-close-vs-blocked-write", ts), Bound: b + 1},
+		{Name: "udp-json-refresh", Sc: c14JSON("udp-json-refresh", ts), Bound: b + 1},
 	}
 }
 
